@@ -34,7 +34,7 @@ func c08Leave(r *rng, id string) {
 			}
 		}
 	}
-	scenario := []string{"plain", "plain", "timeout-then-again"}[r.intn(3)]
+	scenario := []string{"plain", "plain", "timeout-then-again", "suspected-peers"}[r.intn(4)]
 	res1, res2 := "-", "-"
 	sentAtReturn := -1
 	errS := func(err error) string {
@@ -45,6 +45,16 @@ func c08Leave(r *rng, id string) {
 	}
 	switch scenario {
 	case "plain":
+		res1 = errS(lv.m.Leave(3 * time.Second))
+		sentAtReturn = sentDeparture
+	case "suspected-peers":
+		// the leaver holds every peer as suspect (its own probes just failed): they are still members and
+		// still to be told of the departure
+		for _, s := range ml.VerifSnapshotState(lv.m).Nodes {
+			if s.Name != lv.name && s.State == ml.StateAlive {
+				ml.VerifSuspectNode(lv.m, s.Incarnation, s.Name, lv.name)
+			}
+		}
 		res1 = errS(lv.m.Leave(3 * time.Second))
 		sentAtReturn = sentDeparture
 	case "timeout-then-again":
